@@ -11,6 +11,9 @@
 //   C  hash.Hash64Str(license)                     = reference hash64
 //   D  frames captured on a loopback socket from the public client API
 //      (oneway.GetOneWayTcpClient + Send, per-send license and client license) = reference frame
+//   F  concurrent encoders (concurrent.go, child process): several goroutines encode their own packs of
+//      each type at the same time (ToBytesPack and makeData on one shared client); every result must equal
+//      that pack's single-threaded reference bytes; a crash / race-detector abort is an outcome
 //   E  histories on ONE long-lived client (history.go): sends with the default license, per-send
 //      overrides (empty, one character, multi-byte), license changes between sends through the exported
 //      field and through ApplyConfig, packs with different project codes; every frame must be the
@@ -305,6 +308,10 @@ func socketPhase(env *vh.Env, rep *vh.Report, cases []*tcase, res []result, clie
 
 func main() {
 	env, rep := vh.Parse("C05")
+	if os.Getenv("C05_STAGE") == "concurrent" {
+		concurrentChild(env) // child process of the concurrent-encoders stage
+		return
+	}
 	rng := vh.NewRng(env.Seed)
 	rep.Rule = "a case = one pack of the eight listed types with random header/fields/license, generated field-wise (boundary-biased integers, " +
 		"empty/ASCII/multi-byte/long strings, maps of tagged values to depth 2, optional sections present or absent, both header forms); " +
@@ -454,6 +461,9 @@ func main() {
 	// ---- E: histories of sends on one long-lived client (license changes between sends, per-send overrides)
 	historyPhase(env, rep, vh.NewRng(env.Seed*0x9E3779B9+0xC05))
 
+	// ---- F: concurrent encoders (child process): every pack type + makeData from several goroutines at once
+	concurrentPhase(env, rep)
+
 	rep.Note("phase A: %d packs (%d per type); phase D: %d + %d frames captured on loopback", len(cases), perType, nSock, k)
 	rep.Write(env.Out)
 }
@@ -477,6 +487,15 @@ func replay(env *vh.Env, rep *vh.Report) {
 	}
 	if err := json.Unmarshal(raw, &rf); err != nil {
 		vh.Die("replay: %v", err)
+	}
+	if strings.Contains(rf.Key, "under-concurrent-writers") {
+		env.Seed, env.Thorough = rf.Seed, rf.Tier == "thorough"
+		if env.Thorough {
+			env.Tier = "thorough"
+		}
+		rep.Rule = "replay of the concurrent-encoders stage of the recorded seed"
+		concurrentPhase(env, rep)
+		return
 	}
 	if strings.HasPrefix(rf.Key, "OneWayTcpClient.history") {
 		// histories are generated from their own stream of the seed: re-run them all
